@@ -21,6 +21,7 @@ type Rec struct {
 	mu    sync.Mutex
 	w     *bufio.Writer
 	watch *watch
+	last  Event // the most recently recorded event
 }
 
 func (r *Rec) emitLocked(ev Event) {
@@ -35,6 +36,7 @@ func (r *Rec) emitLocked(ev Event) {
 
 // Emit records one event.
 func (r *Rec) Emit(ev Event) {
+	r.last = ev
 	r.mu.Lock()
 	r.emitLocked(ev)
 	r.mu.Unlock()
@@ -180,6 +182,16 @@ func boolean(v any) bool {
 func bytesOf(v any) []byte {
 	if v == nil {
 		return []byte{}
+	}
+	switch x := v.(type) {
+	case []int:
+		out := make([]byte, len(x))
+		for i, c := range x {
+			out[i] = byte(c)
+		}
+		return out
+	case []byte:
+		return append([]byte{}, x...)
 	}
 	a := v.([]any)
 	out := make([]byte, len(a))
